@@ -17,6 +17,9 @@ import (
 type oracle struct {
 	cl *Cluster
 
+	// precommits for a block released per (node, height): incarnation and block
+	pcInc map[[2]uint64][]pcRec
+
 	// validator identity -> power (static validator set in this rig)
 	power map[string]int64 // hex address -> power
 	total int64
@@ -106,6 +109,11 @@ func (cl *Cluster) valByAddr(addr string) *valRef {
 		}
 	}
 	return nil
+}
+
+type pcRec struct {
+	incarn int
+	block  string
 }
 
 func (o *oracle) note(node int, v *types.Vote) {
@@ -206,6 +214,10 @@ func (o *oracle) released(n *Node, kind string, H uint64, R int, id types.BlockI
 				c.Violate("precommit-without-polka", "C01/I3", "node %d precommitted a block at H=%d R=%d having been handed prevotes of power %d/%d for it", n.idx, H, R, o.powerOf(pv), o.total)
 			}
 			o.lock[n.idx] = &lockRec{n.incarn, H, R, bk}
+			if o.pcInc == nil {
+				o.pcInc = map[[2]uint64][]pcRec{}
+			}
+			o.pcInc[[2]uint64{uint64(n.idx), H}] = append(o.pcInc[[2]uint64{uint64(n.idx), H}], pcRec{n.incarn, bk})
 		}
 	case "prevote":
 		// I4: no prevote for another block against the own lock without a later polka
@@ -305,6 +317,23 @@ func (o *oracle) committed(n *Node, block *types.Block) {
 	o.cl.tracef("node%d committed H=%d %s", n.idx, H, hk[:10])
 	if len(m) > 1 {
 		// I1: agreement
+		// A correct node that precommitted block A, restarted, and then
+		// precommitted or committed another block at the same height has lost its
+		// lock across the restart: the WAL catch-up rebuilt its vote sets without
+		// the polka it had seen (a conflicting vote of an equivocator counted only
+		// because of a peer's majority claim, and SetPeerMaj23 is called by the
+		// reactor directly, never logged). Keyed separately (known finding).
+		for idx := range o.cl.nodes {
+			recs := o.pcInc[[2]uint64{uint64(idx), H}]
+			for i := range recs {
+				for j := i + 1; j < len(recs); j++ {
+					if recs[j].incarn > recs[i].incarn && recs[j].block != recs[i].block {
+						c.Violate("disagreement", "C01/I1/lock-lost-across-restart", "honest nodes committed different blocks at height %d: %v; node %d precommitted %.12s in incarnation %d and %.12s in incarnation %d of the same height: the WAL catch-up replay did not restore its lock", H, describeCommits(m), idx, recs[i].block, recs[i].incarn, recs[j].block, recs[j].incarn)
+						return
+					}
+				}
+			}
+		}
 		c.Violate("disagreement", "C01/I1", "honest nodes committed different blocks at height %d: %v", H, describeCommits(m))
 		return
 	}
